@@ -61,10 +61,12 @@ type stringsStruct struct {
 // A target is one decoder entry point. run returns the decoded value (what a
 // caller observes), the number of unconsumed bytes and the error.
 type target struct {
-	name string
-	fam  string
-	tbs  bool // fed the first element of the outer SEQUENCE when the unit says so
-	run  func(in []byte) (val any, rest int, err error)
+	name   string
+	fam    string
+	tbs    bool // fed the first element of the outer SEQUENCE when the unit says so
+	run    func(in []byte) (val any, rest int, err error)
+	res    reflect.Type // type of the decoded value
+	fields []string     // exported top-level fields when the result is a struct (or pointer to one)
 }
 
 var (
@@ -89,11 +91,12 @@ func buildTargets() {
 		return
 	}
 	add := func(t target) {
+		t.fields = structFieldNames(t.res)
 		targetByID[t.name] = len(targets)
 		targets = append(targets, t)
 	}
 	un := func(name string, mk func() any) {
-		add(target{name: "asn1.Unmarshal(" + name + ")", fam: "asn1", run: func(in []byte) (any, int, error) {
+		add(target{name: "asn1.Unmarshal(" + name + ")", fam: "asn1", res: reflect.TypeOf(mk()).Elem(), run: func(in []byte) (any, int, error) {
 			p := mk()
 			rest, err := zasn1.Unmarshal(in, p)
 			if err != nil {
@@ -119,21 +122,21 @@ func buildTargets() {
 	un("explicitStruct", func() any { return new(explicitStruct) })
 	un("stringsStruct", func() any { return new(stringsStruct) })
 
-	add(target{name: "x509.ParseCertificate", fam: "cert", run: func(in []byte) (any, int, error) {
+	add(target{name: "x509.ParseCertificate", fam: "cert", res: reflect.TypeOf(&x509.Certificate{}), run: func(in []byte) (any, int, error) {
 		c, err := x509.ParseCertificate(in)
 		if err != nil {
 			return nil, 0, err
 		}
 		return c, 0, nil
 	}})
-	add(target{name: "x509.ParseTBSCertificate", fam: "cert", tbs: true, run: func(in []byte) (any, int, error) {
+	add(target{name: "x509.ParseTBSCertificate", fam: "cert", tbs: true, res: reflect.TypeOf(&x509.Certificate{}), run: func(in []byte) (any, int, error) {
 		c, err := x509.ParseTBSCertificate(in)
 		if err != nil {
 			return nil, 0, err
 		}
 		return c, 0, nil
 	}})
-	add(target{name: "x509.ParseCertificateRequest", fam: "csr", run: func(in []byte) (any, int, error) {
+	add(target{name: "x509.ParseCertificateRequest", fam: "csr", res: reflect.TypeOf(&x509.CertificateRequest{}), run: func(in []byte) (any, int, error) {
 		c, err := x509.ParseCertificateRequest(in)
 		if err != nil {
 			return nil, 0, err
@@ -391,16 +394,21 @@ func primSeeds() map[string][]byte {
 // trailing bytes. Length forms are relative to the real content length L:
 // minimal, 81 L, 82 00 L, 83 00 00 L (non-minimal long forms), minimal(L+1),
 // minimal(L-1), 81 (L+1), indefinite. Contents: all strings of length <= 1
-// plus all pairs over a 12-symbol alphabet (quick) or all strings of length
-// <= 2 (thorough).
+// plus all pairs over a 12-symbol alphabet (quick) or a 48-symbol alphabet
+// (thorough; all strings of length <= 2 are covered unframed by G-bytes).
 var hdrTags = []byte{0x01, 0x02, 0x03, 0x04, 0x05, 0x06, 0x0a, 0x0c, 0x12, 0x13, 0x14, 0x16, 0x17, 0x18, 0x1b, 0x1e,
 	0x30, 0x31, 0x80, 0x81, 0x82, 0x83, 0xa0, 0xa1, 0xa2, 0xa3, 0x5f}
 
 var hdrPairAlphabet = []byte{0x00, 0x01, 0x02, 0x7f, 0x80, 0xff, 0x30, '0', 'a', '@', ' ', 0xe9}
 
+// thorough: boundaries of every character class and integer sign pattern
+var hdrPairAlphabetFull = []byte{0x00, 0x01, 0x02, 0x05, 0x06, 0x0c, 0x13, 0x17, 0x18, 0x1f, ' ', '!', '&', '\'', '(', ')', '*', '+', ',', '-', '.', '/',
+	'0', '9', ':', '=', '?', '@', 'A', 'Z', '[', '_', 'a', 'z', '{', 0x7e, 0x7f, 0x80, 0x81, 0xa9, 0xbf, 0xc0, 0xc3, 0xe9, 0xf0, 0xfe, 0xff, 0x30}
+
 func hdrContents(full bool) xgen.Enum {
+	alphabet := hdrPairAlphabet
 	if full {
-		return xgen.AllBytes(2)
+		alphabet = hdrPairAlphabetFull
 	}
 	return func(visit func(string, []byte) bool) {
 		stop := false
@@ -414,8 +422,8 @@ func hdrContents(full bool) xgen.Enum {
 			return
 		}
 		var buf [2]byte
-		for _, a := range hdrPairAlphabet {
-			for _, b := range hdrPairAlphabet {
+		for _, a := range alphabet {
+			for _, b := range alphabet {
 				buf[0], buf[1] = a, b
 				if !visit("", buf[:]) {
 					return
@@ -494,6 +502,70 @@ func timeModel(tag byte) xgen.Enum {
 			}
 		}
 	}
+}
+
+// modelSeedAssignments: quick = two certificates carrying every extension of
+// the model at once + one certificate per curated well-formed alternative;
+// thorough = additionally every assignment with exactly one non-default field.
+func modelSeedAssignments(quick bool) []xgen.Assignment {
+	var out []xgen.Assignment
+	seen := map[string]bool{}
+	add := func(a xgen.Assignment) {
+		if k := a.String(); !seen[k] {
+			seen[k] = true
+			out = append(out, append(xgen.Assignment(nil), a...))
+		}
+	}
+	all := func(pairs ...string) xgen.Assignment {
+		a := xgen.Default()
+		for i := 0; i+1 < len(pairs); i += 2 {
+			a = a.With(pairs[i], pairs[i+1])
+		}
+		return a
+	}
+	add(all("keyusage", "valid", "basicconstraints", "pathlen-0", "skid", "valid", "akid", "issuer-serial", "san", "valid", "ian", "all-kinds",
+		"nameconstraints", "valid", "crldp", "two-names", "eku", "valid", "policies", "notices-bb", "aia", "valid", "sct", "two", "poison", "valid",
+		"qcstatements", "valid", "tor", "valid", "cabforgid", "with-state", "unknownext", "valid"))
+	add(all("key", "rsa", "validity", "generalized", "name", "multi-dv", "uids", "both", "selfissued", "no",
+		"keyusage", "critical", "basicconstraints", "valid", "skid", "valid", "akid", "valid", "san", "othername-ok", "ian", "valid",
+		"nameconstraints", "dir-ok", "crldp", "reasons-issuer", "eku", "any", "policies", "cps", "aia", "dns-location", "sct", "with-extensions",
+		"qcstatements", "limit-numeric", "tor", "onion-ia5", "cabforgid", "valid"))
+	curated := map[string][]string{
+		"keyusage":         {"valid", "9-bits", "critical"},
+		"basicconstraints": {"valid", "pathlen-0", "ca-false-explicit"},
+		"skid":             {"valid"},
+		"akid":             {"valid", "issuer-serial", "serial-only"},
+		"san":              {"valid", "othername-ok", "edi-ok", "rid-ok", "dir-ok", "x400", "uri-only"},
+		"ian":              {"valid", "all-kinds"},
+		"nameconstraints":  {"valid", "min-max", "dir-ok", "edi-permitted", "edi-excluded", "rid-permitted", "rid-excluded", "x400-uri"},
+		"crldp":            {"valid", "two-names", "relative-name", "reasons-issuer"},
+		"eku":              {"valid", "any"},
+		"policies":         {"valid", "notices-bb", "notices-rt", "cps", "two-policies", "text-bmp", "ev-policy"},
+		"aia":              {"valid", "dns-location"},
+		"sct":              {"valid", "two", "with-extensions"},
+		"poison":           {"valid"},
+		"qcstatements":     {"valid", "limit-numeric"},
+		"tor":              {"valid", "onion-ia5", "two"},
+		"cabforgid":        {"valid", "with-state"},
+		"unknownext":       {"valid", "critical"},
+		"key":              {"rsa", "ec-p256", "dsa", "x25519"},
+		"sigalg":           {"pss-sha256"},
+		"validity":         {"generalized", "utc-2050"},
+		"name":             {"multi-dv", "multi-valued-rdn", "t61-high"},
+		"uids":             {"both"},
+	}
+	for _, f := range xgen.Fields() {
+		for _, alt := range curated[f.Name] {
+			add(xgen.Default().With(f.Name, alt))
+		}
+	}
+	if !quick {
+		xgen.EnumAssignments(1, func(a xgen.Assignment) bool {
+			add(a)
+			return true
+		})
+	}
+	return out
 }
 
 func unitListHash(units []unit) string {
@@ -576,6 +648,13 @@ func buildUnits(quick bool, cp *corpus) []unit {
 		for _, s := range cp.Minted {
 			add("seed/cert/pairs/"+s.Name, xgen.TLVPairs(s.Data), certT, true)
 		}
+	}
+	// model certificates as seeds of the TLV / byte menus: one model deviation
+	// (a rich, well-formed extension value) + one encoding-level mutation. This
+	// puts every operator (non-minimal lengths, retagging, truncation ...) INSIDE
+	// every kind of extension value the parser knows.
+	for _, a := range modelSeedAssignments(quick) {
+		add("seed/certmodel/"+a.String(), seedMenu(xgen.Seed{Data: xgen.Encode(a)}), certT, true)
 	}
 	var csrSeeds []xgen.Seed
 	csrSeeds = append(csrSeeds, xgen.OfKind(cp.Created, "csr")...)
